@@ -274,19 +274,63 @@ def underscoresOK (s : Str) : Bool :=
 
 def dropUnderscores (s : Str) : Str := s.filter (fun c => c != '_')
 
-/-- decimal literals `12`, `12.`, `12.5`, `.5`, `1_000.2_5` → (mantissa, number of decimals).
-    (Python's `float()` also accepts exponents, `inf`, `nan`, signs: outside the grammar.) -/
-def parseLit (s : Str) : Option (Nat × Nat) :=
+/-- decimal part `12`, `12.`, `12.5`, `.5`, `1_000.2_5` → (mantissa, number of decimals) -/
+def parseDec (s : Str) : Option (Nat × Nat) :=
+  match splitOn s ['.'] with
+  | [a] => if a.isEmpty || !underscoresOK a then none else (digitsVal (dropUnderscores a) 0).map (fun m => (m, 0))
+  | [a, b] =>
+    if (a.isEmpty && b.isEmpty) || !underscoresOK a || !underscoresOK b then none
+    else (digitsVal (dropUnderscores a ++ dropUnderscores b) 0).map (fun m => (m, (dropUnderscores b).length))
+  | _ => none
+
+/-- what `float(token)` reads: `m · 10^(e-k)`, an infinity or NaN -/
+inductive Lit where
+  | fin (m k e : Nat)
+  | inf
+  | nan
+
+/-- the part before the first `e` / `E` and, when there is one, the part after it -/
+def splitExp : Str → Str × Option Str
+  | [] => ([], none)
+  | c :: cs =>
+    if c == 'e' || c == 'E' then ([], some cs)
+    else let r := splitExp cs; (c :: r.1, r.2)
+
+/-- `inf`, `infinity`, `nan` in any case -/
+def wordLit (s : Str) : Option Lit :=
+  let l := s.map Char.toLower
+  if l = ['i', 'n', 'f'] || l = ['i', 'n', 'f', 'i', 'n', 'i', 't', 'y'] then some .inf
+  else if l = ['n', 'a', 'n'] then some .nan else none
+
+/-- the tokens Python's `float()` accepts (`isfloat`), signs and surrounding blanks apart — a token never contains
+    `+` or `-`, which are operators —: decimal literals `12`, `12.`, `12.5`, `.5`, with single underscores between
+    digits (`1_000.2_5`), an optional exponent `e`/`E` followed by digits (`1e5`, `2.5E3`, `1_0e1_0`; `1e-5` is not
+    a token), and the words `inf`, `infinity`, `nan` in any case. (Non-ASCII digits, which `float()` also reads, are
+    outside the model.) -/
+def parseLit (s : Str) : Option Lit :=
   match s with
   | [] => none
   | c :: _ =>
-    if !(c.isDigit || c == '.') then none
-    else match splitOn s ['.'] with
-    | [a] => if a.isEmpty || !underscoresOK a then none else (digitsVal (dropUnderscores a) 0).map (fun m => (m, 0))
-    | [a, b] =>
-      if (a.isEmpty && b.isEmpty) || !underscoresOK a || !underscoresOK b then none
-      else (digitsVal (dropUnderscores a ++ dropUnderscores b) 0).map (fun m => (m, (dropUnderscores b).length))
-    | _ => none
+    if c.isDigit || c == '.' then
+      match splitExp s with
+      | (mant, none) => (parseDec mant).map (fun p => .fin p.1 p.2 0)
+      | (mant, some ex) =>
+        if ex.isEmpty || !underscoresOK ex then none
+        else match parseDec mant, digitsVal (dropUnderscores ex) 0 with
+          | some p, some e => some (.fin p.1 p.2 e)
+          | _, _ => none
+    else wordLit s
+
+/-- the value of a literal: `m · 10^(e-k)` read exactly (`ofDec` is `float("…")` on a decimal string), beyond
+    every double when the exponent is out of range -/
+def litVal {α : Type} [Scalar α] : Lit → α
+  | .fin m k e =>
+    if e ≤ k then ofDec m (k - e)
+    else if m = 0 then ofDec 0 0
+    else if e - k > 400 then div one zero
+    else ofDec (m * 10 ^ (e - k)) 0
+  | .inf => div one zero
+  | .nan => nan
 
 /-! ## The track: coordinates, timestamps (as epoch seconds) and the feature table -/
 
@@ -572,7 +616,7 @@ inductive Item (α : Type) where
   | num (v : α)
   | unit
 
-def litOf (s : Str) : Option α := (parseLit s).map (fun p => ofDec p.1 p.2)
+def litOf (s : Str) : Option α := (parseLit s).map litVal
 
 /-- `isfloat(op)` together with `float(op)`; `float(None)` is a TypeError, which `isfloat` does not catch -/
 def isFloat : Item α → Except Err (Option α)
